@@ -8,6 +8,7 @@
 package main
 
 import (
+	"context"
 	"encoding/json"
 	"errors"
 	"fmt"
@@ -76,6 +77,9 @@ func gate(m int, cb string) error {
 		if o.how == "panic" {
 			how = "panic"
 		}
+		if o.how == "canceled" {
+			how = "canceled"
+		}
 	}
 	tr.Emit(map[string]any{"e": "end", "m": m, "cb": cb, "ok": o.ok, "how": how, "h": 0})
 	if o.ok {
@@ -83,6 +87,10 @@ func gate(m int, cb string) error {
 	}
 	if o.how == "panic" {
 		panic(fmt.Sprintf("injected panic in %s of %s", cb, name(m)))
+	}
+	if o.how == "canceled" {
+		// an error value that wraps a sentinel some loops treat as "finished": it is a failure all the same
+		return fmt.Errorf("interrupted while %s of %s: %w", cb, name(m), context.Canceled)
 	}
 	return errors.New("injected failure")
 }
